@@ -15,7 +15,7 @@ pub fn def() -> PropDef {
         streams,
         run,
         floors,
-        rule: "constructors: 4 kinds x all 4 boolean pairs; the accessor named after the first (second) constructor parameter must return the first (second) argument, and the word must have exactly the corresponding bits (6 / 7) set. Wire words: per kind, all single-bit, two-bit and complement patterns plus random words (every value of the low 16 bits over random high halves; thorough: ALL 2^32 words of every kind in a tight loop, blocks of 2^20); decode through the per-type decoder and through a control message, re-encode, compare all 32 bits, and check each accessor against its own bit only. Distinct = distinct (kind, word); non-trivial = all.",
+        rule: "constructors: 4 kinds x all 4 boolean pairs; the accessor named after the first (second) constructor parameter must return the first (second) argument, and the word must have exactly the corresponding bits (6 / 7) set. Wire words: per kind, all single-bit, two-bit and complement patterns plus random words (every value of the low 16 bits over random high halves; thorough: ALL 2^32 words of every kind in a tight loop, blocks of 2^20); decode through the per-type decoder and through a control message, re-encode, compare all 32 bits, and check each accessor against its own bit only. Distinct = distinct (kind, word); non-trivial = all. For a sample of words also: clone, hide->reveal, a window writer at positions >= 2^16.",
     }
 }
 
